@@ -177,7 +177,7 @@ def make_recipe(ctx, k):
 
 def run(ctx) -> None:
     items: list = []
-    for k in range(ctx.budget(25, 200)):
+    for k in range(ctx.budget(40, 250)):
         recipe = make_recipe(ctx, k)
         ctx.guarded(lambda: examine(ctx, recipe, items), {'recipe': recipe})
     if ctx.searching and ctx.driver is None:
